@@ -36,6 +36,15 @@
 //	                    pre-lock part runs first, then the dead check, then the rest.
 //	faultany <graph>    (thorough) as fault, from the cold start, faults injected in every state.
 //
+// Router restarts (fault families): RS(r) the process of r is replaced by a fresh dv.NewRouter of the
+// same name, up one second later, while the neighbours still hold the entry of the previous
+// incarnation; RUs(r) a stopped router comes back after ten seconds (RU: a minute). Option
+// restart=window adds RSw(r): the new process stops between register() and the insertion of its own
+// RIB entry (it answers fetches with an advertisement that does not list itself) until the default
+// event Bt(r); in sched configurations this combines with parked fetches (Pg).
+// Option twins=K: audit of the canonical form, see dvsim/twins.go. Option devs=flight: Xq/Fd is the
+// only delivery deviation.
+//
 // Clauses: C18.adv (every transition: no advertisement entry, on the wire or in Rib.Advert(), with
 // Cost >= 16), C18.dist / C18.withdraw (every fixed point: costs = BFS hop distances of the live
 // topology, next hop one hop closer, unreachable destinations absent from RIB and advertisement),
@@ -71,6 +80,14 @@ type sys struct {
 	// flight: delivery deviation Xq/Fd (advertisement Data in flight, may be overtaken); it triples
 	// the state space per deviation, so it is used on graphs with <= 2 links (thorough: <= 3)
 	flight bool
+	// noPark: the parked-fetch deviations Pg / To are not generated (configurations "devs=flight")
+	noPark bool
+	// twins: audit of the canonical form (configurations "twins=K": every K-th canonical state)
+	twins *dvsim.TwinAudit
+	// window: the restart event RSw / Bt (boot window) is generated (configurations "restart=window")
+	window bool
+	// noRestart: the restart events RS / RUs are not generated (configurations "restart=off")
+	noRestart bool
 	// ticks: event Dt(i) (the dead interval passes at i with stable links); used with parallel links
 	ticks     bool
 	trace     *dvsim.Trace
@@ -127,9 +144,15 @@ func (y *sys) ops(s *dvsim.Sim) []explore.Op {
 		for b := 0; b < n; b++ {
 			// an exchange in which a already holds b's current advertisement maps the state to
 			// the same canonical state: not generated (it is a self-loop by construction)
-			if a != b && s.LinkLive(a, b) && !sn.Fresh(a, b) {
+			if a != b && s.Sends(a, b) && !sn.Fresh(a, b) {
 				ops = append(ops, explore.Op{Name: fmt.Sprintf("X(%d<%d)", a, b)})
 			}
+		}
+	}
+	// a router in its boot window (restart event RSw) reaches its loop
+	for a := 0; a < n; a++ {
+		if s.Nodes[a].Up && s.Nodes[a].Booting {
+			ops = append(ops, explore.Op{Name: fmt.Sprintf("Bt(%d)", a)})
 		}
 	}
 	if !y.faults {
@@ -141,14 +164,14 @@ func (y *sys) ops(s *dvsim.Sim) []explore.Op {
 				ops = append(ops, explore.Op{Name: fmt.Sprintf("Dl(%d<%d#%d)", a, x.Target, k)})
 			}
 		}
-		for a := 0; a < n; a++ {
+		for a := 0; !y.noPark && a < n; a++ {
 			for b := 0; b < n; b++ {
-				if a != b && s.LinkLive(a, b) && !sn.Fresh(a, b) {
+				if a != b && s.Sends(a, b) && !sn.Fresh(a, b) {
 					ops = append(ops, explore.Op{Name: fmt.Sprintf("Pg(%d<%d)", a, b), Dev: true})
 				}
 			}
 		}
-		for a := 0; a < n; a++ {
+		for a := 0; !y.noPark && a < n; a++ {
 			for k := range s.Parked(a, dvsim.KAdvData) {
 				ops = append(ops, explore.Op{Name: fmt.Sprintf("To(%d#%d)", a, k), Dev: true})
 			}
@@ -162,11 +185,23 @@ func (y *sys) ops(s *dvsim.Sim) []explore.Op {
 		}
 		for a := 0; y.flight && a < n; a++ {
 			for b := 0; b < n; b++ {
-				if a != b && s.LinkLive(a, b) && !sn.Fresh(a, b) {
+				if a != b && s.Sends(a, b) && !sn.Fresh(a, b) {
 					ops = append(ops, explore.Op{Name: fmt.Sprintf("Xq(%d<%d)", a, b), Dev: true})
 				}
 			}
 		}
+		// restart into the boot window, in any state of the cold-start families that ask for it (a
+		// fetch parked at a neighbour can then be answered by the new process before it lists itself)
+		for a := 0; y.window && !s.AnyBooting() && a < n; a++ {
+			if s.Nodes[a].Up {
+				ops = append(ops, explore.Op{Name: fmt.Sprintf("RSw(%d)", a), Dev: true})
+			}
+		}
+		return ops
+	}
+	if s.AnyBooting() {
+		// the boot window is a matter of microseconds: no timer fires (dead checks, held tasks
+		// released) and no further fault happens inside it; only messages are delivered
 		return ops
 	}
 	for a := 0; a < n; a++ {
@@ -196,7 +231,7 @@ func (y *sys) ops(s *dvsim.Sim) []explore.Op {
 		} else {
 			for a := 0; a < n; a++ {
 				for b := 0; b < n; b++ {
-					if a != b && s.LinkLive(a, b) && !sn.Fresh(a, b) {
+					if a != b && s.Sends(a, b) && !sn.Fresh(a, b) {
 						ops = append(ops, explore.Op{Name: fmt.Sprintf("Xh(%d<%d)", a, b), Dev: true})
 					}
 				}
@@ -225,6 +260,24 @@ func (y *sys) ops(s *dvsim.Sim) []explore.Op {
 			ops = append(ops, explore.Op{Name: fmt.Sprintf("RU(%d)", a), Dev: true})
 		}
 	}
+	// Router RESTART: the process is replaced by a fresh one of the same name while the neighbours
+	// still hold the entry (sequence number, advertisement) of the previous incarnation.
+	// RS(r): as one event, the new process is up a second later; RUs(r): a stopped router comes
+	// back ten seconds after the last event (RU: a minute).
+	for a := 0; !y.noRestart && a < n; a++ {
+		if s.Nodes[a].Up {
+			ops = append(ops, explore.Op{Name: fmt.Sprintf("RS(%d)", a), Dev: true})
+		} else {
+			ops = append(ops, explore.Op{Name: fmt.Sprintf("RUs(%d)", a), Dev: true})
+		}
+	}
+	// RSw(r): as RS, but the new process is still in the window of Router.Start between registering
+	// its handlers and adding its own RIB entry; the default event Bt(r) ends the window
+	for a := 0; y.window && a < n; a++ {
+		if s.Nodes[a].Up {
+			ops = append(ops, explore.Op{Name: fmt.Sprintf("RSw(%d)", a), Dev: true})
+		}
+	}
 	return ops
 }
 
@@ -236,12 +289,12 @@ func applyOp(s *dvsim.Sim, nm string) {
 	switch {
 	case strings.HasPrefix(nm, "X("):
 		fmt.Sscanf(nm, "X(%d<%d)", &a, &b)
-		if s.LinkLive(a, b) {
+		if s.Sends(a, b) {
 			s.Exchange(a, b)
 		}
 	case strings.HasPrefix(nm, "Xq("):
 		fmt.Sscanf(nm, "Xq(%d<%d)", &a, &b)
-		if s.LinkLive(a, b) {
+		if s.Sends(a, b) {
 			s.ExchangeQueued(a, b)
 		}
 	case strings.HasPrefix(nm, "Fd("):
@@ -253,15 +306,16 @@ func applyOp(s *dvsim.Sim, nm string) {
 		// the advertisement is fetched and stored by advertDataHandler; the ribUpdate it spawns
 		// (and everything behind it) is held back
 		fmt.Sscanf(nm, "Xh(%d<%d)", &a, &b)
-		if s.LinkLive(a, b) {
+		if s.Sends(a, b) {
 			s.HoldBefore("advertDataHandler", nm)
+			s.HeldNbr = b
 			s.Exchange(a, b)
 		}
 	case nm == "Rl":
 		s.Release()
 	case strings.HasPrefix(nm, "Pg("):
 		fmt.Sscanf(nm, "Pg(%d<%d)", &a, &b)
-		if s.LinkLive(a, b) {
+		if s.Sends(a, b) {
 			s.Ping(a, b, true)
 		}
 	case strings.HasPrefix(nm, "Dl("):
@@ -298,6 +352,24 @@ func applyOp(s *dvsim.Sim, nm string) {
 		fmt.Sscanf(nm, "RU(%d)", &a)
 		if !s.Nodes[a].Up {
 			s.RouterUp(a)
+		}
+	case strings.HasPrefix(nm, "RUs("):
+		fmt.Sscanf(nm, "RUs(%d)", &a)
+		if !s.Nodes[a].Up {
+			s.RouterUpAfter(a, 10*time.Second)
+		}
+	case strings.HasPrefix(nm, "RSw("):
+		fmt.Sscanf(nm, "RSw(%d)", &a)
+		if s.Nodes[a].Up {
+			s.RouterRestartWindow(a, time.Second)
+		}
+	case strings.HasPrefix(nm, "Bt("):
+		fmt.Sscanf(nm, "Bt(%d)", &a)
+		s.FinishBoot(a)
+	case strings.HasPrefix(nm, "RS("):
+		fmt.Sscanf(nm, "RS(%d)", &a)
+		if s.Nodes[a].Up {
+			s.RouterRestart(a, time.Second)
 		}
 	default:
 		panic("unknown op " + nm)
@@ -366,6 +438,10 @@ func (y *sys) Apply(i any, op explore.Op) []report.Violation {
 // CheckState is the closure of depth-bounded configurations (see closureDepth).
 func (y *sys) CheckState(i any) []report.Violation {
 	l := i.(*dvsim.Lazy)
+	if y.twins != nil {
+		y.twins.Visit(l, y.Canon(i))
+		l.Invalidate()
+	}
 	if y.closureDepth == 0 || len(l.Hist) != y.closureDepth {
 		return nil
 	}
@@ -470,9 +546,15 @@ func convergeOrder(s *dvsim.Sim, order []int) int {
 			s.Release() // a fair schedule does not delay a task for ever
 			s.EndOp()
 		}
+		for a := range s.Nodes {
+			if s.Nodes[a].Up && s.Nodes[a].Booting {
+				s.FinishBoot(a) // nor a boot
+				s.EndOp()
+			}
+		}
 		for _, a := range order {
 			for _, b := range order {
-				if a != b && s.LinkLive(a, b) {
+				if a != b && s.Sends(a, b) {
 					s.Exchange(a, b)
 					s.EndOp()
 				}
@@ -506,11 +588,25 @@ func build(cfg string) explore.System {
 	}
 	var down, par [][2]int
 	var opt dvsim.Options
+	twinsEvery := 0
 	for _, p := range parts[2:] {
 		fmt.Sscanf(p, "d=%d", &y.closureDepth)
 		fmt.Sscanf(p, "orders=%d", &y.orders)
+		fmt.Sscanf(p, "twins=%d", &twinsEvery)
 		if p == "names=nested" {
 			opt.Nested = true
+		}
+		if p == "flight" {
+			y.flight = true // delivery deviation Xq/Fd on a graph it is not enabled on by default
+		}
+		if p == "restart=window" {
+			y.window = true
+		}
+		if p == "restart=off" {
+			y.noRestart = true
+		}
+		if p == "devs=flight" {
+			y.flight, y.noPark = true, true // Xq/Fd is the only delivery deviation (no Pg / To)
 		}
 		if strings.HasPrefix(p, "net=") {
 			opt.Network = p[4:]
@@ -549,6 +645,15 @@ func build(cfg string) explore.System {
 	}
 	y.m = dvsim.NewMachineOpt(g, init, applyOp, opt, "C18|"+cfg)
 	y.opsCache, y.fromCache = map[string][]explore.Op{}, map[string]string{}
+	if twinsEvery > 0 {
+		y.twins = &dvsim.TwinAudit{M: y.m, T: y.trace, Every: twinsEvery, Ops: func(s *dvsim.Sim) []string {
+			var out []string
+			for _, o := range y.ops(s) {
+				out = append(out, o.Name)
+			}
+			return out
+		}}
+	}
 	y.m.Probe(func(s *dvsim.Sim) []string {
 		var def, dev []string
 		for _, o := range y.ops(s) {
@@ -629,7 +734,7 @@ func configs(th bool) []explore.Config {
 		line5, ring5 := dvsim.Line(5).String(), dvsim.Ring(5).String()
 		heavyFault := map[string]bool{"n4:02-03-12-13": true, "n4:01-02-03-12": true, "n4:01-02-03-12-13": true, "n4:01-02-03-12-13-23": true, ring5: true}
 		sched("n2:01", 1, 0)
-		sched("n3:01-02", 1, 0)
+		sched("n3:01-02 twins=4", 1, 0)
 		// router names in a prefix relation (/ndn/r0, /ndn/r0/x1, /ndn/r0/x1/x2, ...)
 		sched("n3:01-02 names=nested", 1, 0)
 		fault("n4:01-03-12 names=nested", 2)
@@ -637,19 +742,33 @@ func configs(th bool) []explore.Config {
 		sched("n2:01 net=/ndn/edu", 1, 0)
 		sched("n3:01-02 net=/ndn/edu/cs", 0, 0)
 		// two parallel faces between the routers, sync Interests alternating between them, time passing
-		fault("n2:01 par=01", 1)
-		fault("n3:01-02 par=01", 1)
-		hold("n2:01", 2, 0)
+		fault("n2:01 par=01 twins=1", 1)
+		fault("n3:01-02 par=01 twins=1", 1)
+		hold("n2:01 twins=1", 2, 0)
+		// Audit of the canonical form (dvsim/twins.go) where a search that de-duplicates on it cannot see
+		// its flaws: the cold-start state space of the triangle (the smallest graph on which a router
+		// learns a route to itself through a neighbour) without deviations, every operation - the
+		// delivery deviation Xq included - executed from two histories of every canonical state reached
+		// twice. The other twins=K configurations do the same for every K-th state of theirs.
+		sched("n3:01-02-12 devs=flight twins=1", 0, 0)
+		// Restart into the boot window of Router.Start (handlers registered, own RIB entry not yet
+		// added) from the cold start: a fetch parked at the neighbour (deviation Pg) is answered by the
+		// new process with an advertisement that lists nothing.
+		sched("n2:01 restart=window twins=1", 2, 0)
 		// faults from the fixed point: <= 2 fault / repair events per history
 		for _, g := range append(append([]string{}, all...), line5) {
 			if !heavyFault[g] {
+				if strings.HasPrefix(g, "n3") {
+					// with the restart into the boot window, and the audit of the canonical form
+					g += " restart=window twins=1"
+				}
 				fault(g, 2)
 			}
 		}
 		// several topology changes between two fetches of one neighbour
-		faultMid("n4:01-02-03", "03", 2) // star: leaf 3 joins while leaf 1 or 2 is lost
-		faultMid("n4:01-03-12", "12", 2) // line 3-0-1-2: router 2 joins at the far end
-		faultMid("n3:01-02-12", "12", 2) // triangle with one side missing at first
+		faultMid("n4:01-02-03", "03", 2)         // star: leaf 3 joins while leaf 1 or 2 is lost
+		faultMid("n4:01-03-12", "12", 2)         // line 3-0-1-2: router 2 joins at the far end
+		faultMid("n3:01-02-12", "12 twins=4", 2) // triangle with one side missing at first
 		// Count-to-infinity after a loss takes dozens of events on meshed graphs, more than the
 		// breadth-first search reaches: single faults, every order of the first 3 events, then the
 		// closing schedule under EVERY order of the routers (which neighbour withdraws first decides
@@ -659,7 +778,9 @@ func configs(th bool) []explore.Config {
 			if strings.Count(g, "-")+1 >= 7 {
 				d = 2 // 12 single faults x 120 closing orders already take the share of the budget
 			}
-			faultClosed(g, 1, d, 120)
+			// (link and router losses only: the restart events are left to the 4-router graphs below,
+			// 5 more faults x 120 closing orders per graph do not fit the quick tier)
+			faultClosed(g+" restart=off", 1, d, 120)
 		}
 		for _, g := range all {
 			if strings.HasPrefix(g, "n4") && strings.Count(g, "-")+1 >= 4 {
@@ -674,12 +795,12 @@ func configs(th bool) []explore.Config {
 			}
 		}
 		for _, g := range mesh5 {
-			faultMidClosed(g, 2, 2, 24)
+			faultMidClosed(g+" restart=off", 2, 2, 24)
 		}
 		// Cold start, every event order. Delivery deviations (sync Interest heard, fetch parked or
 		// timed out while other events happen) multiply the state space by about the number of
 		// directed links per deviation: used on the graphs with <= 3 links.
-		hold("n3:01-02", 2, 0)
+		hold("n3:01-02 twins=8", 2, 0)
 		sched("n4:01-03-12", 1, 0)
 		sched("n4:01-02-03", 1, 0)
 		sched("n3:01-02-12", 1, 0)
@@ -754,8 +875,17 @@ func configs(th bool) []explore.Config {
 	for _, g := range mesh5 {
 		faultMidClosed(g, 2, 2, 120)
 	}
-	hold("n2:01", 3, 0)
-	hold("n3:01-02", 3, 0)
+	// audit of the canonical form and boot-window restarts (see the quick tier)
+	sched("n3:01-02-12 devs=flight twins=1", 0, 0)
+	sched("n3:01-02-12 devs=flight twins=16", 2, 0)
+	sched("n2:01 restart=window twins=1", 3, 0)
+	sched("n3:01-02 restart=window twins=8", 2, 0)
+	fault("n3:01-02 restart=window twins=1", 3)
+	fault("n3:01-02-12 restart=window twins=4", 3)
+	fault("n4:01-03-12 restart=window twins=16", 2)
+	c = append(c, explore.Config{Name: "faultany n3:01-02-12 restart=window twins=16", MaxDepth: 400, MaxDev: 2})
+	hold("n2:01 twins=1", 3, 0)
+	hold("n3:01-02 twins=16", 3, 0)
 	hold("n3:01-02-12", 2, 6)
 	hold("n4:01-02-03", 2, 6)
 	hold("n4:01-03-12", 2, 6)
@@ -851,8 +981,8 @@ func main() {
 		Assumptions: []string{
 			"the harness network delivers a sync Interest of router j to router i only over a live link (i,j), in order, and never delivers an outdated one; Data for an advertisement fetch comes from the addressed neighbour",
 			"tasks spawned by one event (go statements of dv/dv and std/sync) run to quiescence in FIFO order before the next event; tasks of different routers share no state, tasks of one router hold dv.mutex for their whole body (advertDataFetch excepted: it only reads the neighbour table before expressing an Interest)",
-			"clock abstraction: IsDead is only evaluated right after a step longer than RouterDeadInterval in which exactly the live neighbours sent heartbeats (event Dc); a restarted router boots with a millisecond clock beyond every sequence number of its previous incarnation",
-			"equal canonical state (live topology, neighbour tables with sequence numbers as relations, RIB costs below infinity, parked fetches) implies equal futures",
+			"clock abstraction: IsDead is only evaluated right after a step longer than RouterDeadInterval in which exactly the live neighbours sent heartbeats (event Dc). Router restarts: RS(r) replaces the process by a fresh dv.NewRouter of the same name one virtual second later (the neighbours keep the entry of the previous incarnation), RUs(r) / RU(r) bring a stopped router back ten seconds / a minute after the last event; whether the new incarnation's sequence numbers exceed the old ones is left to the code (a neighbour entry whose number is ahead of the router's is part of the canonical state, with its margin). RSw(r) (configurations restart=window) stops the new process between register() and the insertion of its own RIB entry until the default event Bt(r); inside that window only messages are delivered (no dead check, no further fault)",
+			"equal canonical state (live topology, neighbour tables with sequence numbers as relations, RIB costs below infinity, parked fetches) implies equal futures; audited by the twins=K configurations (every K-th canonical state reached by two histories: every enabled operation, deviations included, is executed from both and the canonical successors must agree, else CHECK-ERROR)",
 			"fault configurations start from the fixed point of the intact topology and inject faults in fixed points only (thorough adds faultany configurations: cold start, faults in every state); the number of fault/repair events per history is bounded (2 quick, 3 thorough); delivery deviations (parked / timed-out fetch) are bounded (1 quick, 2 thorough) and used on graphs with <= 3 (quick) / <= 4 (thorough) links",
 			"successor states are computed by restoring saved table contents into the live router objects and executing one operation; restores are cross-checked against plain re-execution (first 25 and every 400th per worker; a differential run with VERIF_DV_NOCACHE=1 gives identical state and transition counts); on a mismatch (router state the save/restore hooks do not cover) the configuration is computed by plain re-execution from then on and listed in the evidence",
 			"task interleaving: spawned tasks run FIFO to quiescence per event, except in the hold configurations, where the ribUpdate task spawned by advertDataHandler for one exchange per history is delayed past arbitrary later events (exchanges, faults, dead checks) and then released, or (event DcR) races checkDeadNeighbors for dv.mutex with real goroutines: whatever the held task does before locking runs first, then the dead check, then the rest of the task; other pre-lock / mid-task preemptions are not modelled",
